@@ -115,3 +115,32 @@ def sym_with_gaps(rng, n, gap=0.4):
     lam = np.cumsum(rng.uniform(gap, 1.5, size=n)) - 2.0
     rng.shuffle(lam)
     return (Q * lam) @ Q.T
+
+
+LAYOUTS = ['C', 'F', 'T', 'strided', 'reversed']
+
+
+def relayout(data, mode):
+    """same values and shape, different memory layout (the kernels must not depend on contiguity):
+    C: C-contiguous copy; F: Fortran order over all axes; T: coefficient axes stored transposed (data is a
+    transposed view of a C-contiguous buffer); strided: every second element of a larger buffer along the last axis;
+    reversed: negative stride along the last axis"""
+    data = np.asarray(data)
+    if mode == 'C' or data.ndim < 3:
+        return np.array(data, order='C', copy=True)
+    if mode == 'F':
+        return np.array(data, order='F', copy=True)
+    if mode == 'T':
+        nd = data.ndim
+        perm = (0, 1) + tuple(range(2, nd))[::-1]
+        buf = np.array(np.transpose(data, perm), order='C', copy=True)
+        return np.transpose(buf, perm)           # axes 2.. reversed back: a non-contiguous view with the original values
+    if mode == 'strided':
+        shp = data.shape[:-1] + (2 * data.shape[-1],)
+        buf = np.zeros(shp, dtype=data.dtype)
+        buf[..., ::2] = data
+        return buf[..., ::2]
+    if mode == 'reversed':
+        buf = np.array(data[..., ::-1], order='C', copy=True)
+        return buf[..., ::-1]
+    raise KeyError(mode)
